@@ -314,6 +314,9 @@ static int run_session(Case *cs, int pass /*0 single, 1 first, 2 second*/, Stats
     }
     g_where = "init";
     rc = svt_av1_enc_init(h);
+#ifdef SVTDRV_BISECT
+    { extern void svtdrv_bisect(void); if (rc == EB_ErrorNone) svtdrv_bisect(); }   /* tools/isa_bisect.py: selected dispatch pointers back to C */
+#endif
     fprintf(jf, ",\"rc_init\":%d,\"threads_running\":%d", (int)rc, count_threads());
     PH_UNLOCK();
     if (rc == EB_ErrorNone) { g_where = "phase-barrier(init)"; ph_wait(0); } else ph_leave();
